@@ -195,7 +195,7 @@ Section FiltChainAddr.
   Proof. revert lv. induction steps as [|x r IH]; intros lv; [reflexivity|]. cbn [map nav_allf nav_all nav1f]. apply flat_map_ext'. exact IH. Qed.
 
   (* steps whose filters mention the document root nowhere select the same whatever the root is *)
-  Definition bq_rootfree (b : bq) : bool := match b with BRE _ | BRN _ | BCR _ _ _ | BPQ _ _ _ => false | _ => true end.
+  Definition bq_rootfree (b : bq) : bool := match b with BRE _ | BRN _ | BCR _ _ _ | BPQ _ _ _ | BRL _ _ _ => false | _ => true end.
   Fixpoint fstep_rootfree (x : fstep) : bool := match x with FQ d => forallb (forallb bq_rootfree) d | FQS _ d => forallb (forallb bq_rootfree) (unspace_dnf d) | FT t => qt_leaves bq_rootfree t | FR y => fstep_rootfree y | _ => true end.
   Lemma dnf_test_rootfree root root' d : forallb (forallb bq_rootfree) d = true ->
     forall vals v, dnf_test parse_float regex_match root vals d v = dnf_test parse_float regex_match root' vals d v.
